@@ -144,8 +144,10 @@ def finish(pid, tier, seed, repo, results, bounded, lean, known, wall, meta):
     if meta.get("tierP", True) and n_obl < min_obl and not out_of_reach:
         broken += 1
         lines.append("CHECKER-BROKEN property=%s only %d obligations generated (< %d committed): vacuous run" % (pid, n_obl, min_obl))
-    for k in known_hit.values():
-        lines.append("KNOWN-FINDING: property=%s %s" % (pid, k["what"]))
+    # every open finding listed for this property is announced on every run (whether or not this run's sample reproduced it)
+    for k in known:
+        if k.get("property") == pid and k.get("status", "open") == "open":
+            lines.append("KNOWN-FINDING: property=%s %s [%s]" % (pid, " ".join(k["what"].split()), "reproduced in this run" if k["id"] in known_hit else "listed; not sampled in this run"))
     # ---- evidence
     level = meta["level"]
     if level == "proof" and (n_dis != n_obl or out_of_reach or n_obl == 0):
